@@ -36,7 +36,7 @@ func DecodeTfdt(hdr BoxHeader, startPos uint64, r io.Reader) (Box, error) {
 		Flags:               versionAndFlags & flagsMask,
 		baseMediaDecodeTime: baseMediaDecodeTime,
 	}
-	return b, nil
+	return b, s.AccError()
 }
 
 // DecodeTfdtSR - box-specific decode
